@@ -74,6 +74,7 @@ func registerAll() {
 	reg("L2", "decoder prefix = in-memory prefix: for every slab literal built by a decoder, the constant part of its size, evaluated per state (root / non-root / inlined), equals what getPrefixSize() returns for that state", ruleL2)
 
 	reg("B1", "index-guard exactness: every IndexOutOfBoundsError rejection is reachable exactly under the orderings of (index, bound) that are out of range for the operation (>= for access, > for insertion), and no non-error exit is reachable past the guard under those orderings", ruleB1)
+	reg("L15", "dedup-key completeness: the key under which the slab encoder shares an extra-data entry between inlined containers is a function of the encoded type information and of every field-name list handed in (data dependence through package callees, every non-empty-list return)", ruleL15)
 	reg("I2", "iterator cursor advance: every exit of a Next/next method that hands out an element is preceded on all paths by a write of the iterator's cursor state (own field, nested iterator, or delegation to its own Next)", ruleI2)
 	reg("I3", "range validation: the range iterator constructors reject start > end and bounds beyond the count", ruleI3)
 
@@ -157,7 +158,7 @@ func registerAll() {
 	}
 	propTable["C07"] = &PropSpec{
 		ID:    "C07",
-		Rules: []string{"L3", "L4", "L11", "L1", "X1"},
+		Rules: []string{"L3", "L4", "L11", "L15", "L1", "X1"},
 		Explanation: "header flags: each setter/getter pair uses the same byte and single-bit mask, disjoint from type and version bits; each slab encoder sets each flag exactly under the state it describes (root <=> extra data, has-pointers <=> HasPointer(), next <=> sibling link, any-size <=> anySize, inlined-slabs <=> collected extra data) and the V1 decoders and raw-bytes queries consult exactly those flags; vocabularies coincide: every CBOR tag emitted is dispatched (in-package or, by table, by the client decoder) and vice versa, tag numbers are distinct, slab kinds emitted equal kinds dispatched by DecodeSlab, encoders emit version 1 and decoders accept exactly versions 0 and 1; encoders use fixed-width heads matching the size constants; decode dispatch covers every element kind.",
 		NotDecided: "byte-for-byte round trip of arbitrary nested content, compact-map ordering, rejection of trailing bytes.",
 		Technique:  "mask/guard checks on go/ssa, AST vocabulary comparison of encoder and decoder sides, encoder width interpretation",
